@@ -15,6 +15,7 @@ import PdshVerif.Dsh.ExitLemmas
 import PdshVerif.Dsh.ExitRefine
 import PdshVerif.Dsh.ExitRelay
 import PdshVerif.Relay.IndexSim
+import PdshVerif.Dsh.SignalsAbort
 
 namespace PdshVerif.C08
 open PdshVerif PdshVerif.Dsh PdshVerif.Dsh.Exit
@@ -329,6 +330,69 @@ example : (⟨["hello\n".toList], "no newline".toList, ["late\n".toList]⟩ : In
   refine ⟨?_, ?_, by decide, by decide, by decide⟩
   · intro l hl; simp at hl; subst hl; exact ⟨⟨"hello".toList, by decide, by decide⟩, by decide⟩
   · intro l hl; simp at hl; subst hl; exact ⟨⟨"late".toList, by decide, by decide⟩, by decide⟩
+
+/-! ## runs that are cut short: command time-out, connect failure -/
+
+/-- a command that was cut short by the command time-out leaves its target FAILED — for BOTH ways the expiry is
+    noticed (`viaLoopTop`: by the worker itself at the top of its poll loop while the command keeps it busy, or
+    through the watchdog's SIGALRM interrupting xpoll), whatever the command printed and whatever it returns
+    after SIGTERM (0 when it traps TERM, 143, anything) -/
+theorem timeout_failed (fx : Fixes) (sc : Script) (hc : sc.connectOk = true) (ht : sc.timedOut = true) :
+    (hostOf fx sc).state = .failed := by
+  simp [hostOf, hc, ht]
+
+/-- TIMEOUT_NONZERO (every variant of the code; -S, or -k, or both): a run in which some command was cut short
+    by a time-out (either detection path) or some target could not be reached cannot report success: the exit
+    status is non-zero; under -S without -k it is RC_FAILED (254) or 255.  (Codes within 0..255.) -/
+theorem timeout_nonzero (fx : Fixes) (fl : Flags) (hfl : fl.S = true ∨ fl.k = true) (scs : List Script)
+    (hb : ∀ x ∈ scs, 0 ≤ (hostOf fx x).rc ∧ (hostOf fx x).rc ≤ 255)
+    (hcut : ∃ sc ∈ scs, (sc.connectOk = true ∧ sc.timedOut = true) ∨ sc.connectOk = false) :
+    mainExit fx fl (.started (scs.map (hostOf fx))) ≠ 0 ∧
+    (fl.S = true → fl.k = false → 254 ≤ mainExit fx fl (.started (scs.map (hostOf fx)))) := by
+  obtain ⟨sc, hsc, hwhy⟩ := hcut
+  have hfailed : (hostOf fx sc).state = .failed := by
+    rcases hwhy with ⟨hc, ht⟩ | hc
+    · exact timeout_failed fx sc hc ht
+    · simp [hostOf, hc]
+  have hmem : hostOf fx sc ∈ scs.map (hostOf fx) := List.mem_map.mpr ⟨sc, hsc, rfl⟩
+  have hseen : ∃ x ∈ (scs.map (hostOf fx)).map (seen fx), x.state = .failed := by
+    refine ⟨seen fx (hostOf fx sc), List.mem_map.mpr ⟨_, hmem, rfl⟩, ?_⟩
+    unfold seen; split <;> simp [hfailed]
+  have hR : RC_FAILED = 254 := by decide
+  have hlo := aggLoop_ge_failed fx 0 _ hseen
+  have hhi : aggLoop fx 0 ((scs.map (hostOf fx)).map (seen fx)) ≤ 255 := by
+    apply aggLoop_le fx 0 _ (by omega)
+    intro x hx
+    obtain ⟨y, hy, rfl⟩ := List.mem_map.mp hx
+    obtain ⟨z, hz, rfl⟩ := List.mem_map.mp hy
+    rw [seen_rc]
+    exact (hb z hz).2
+  have hkf : (scs.map (hostOf fx)).any kFails = true := by
+    rw [List.any_eq_true]
+    exact ⟨_, hmem, by simp [kFails, hfailed]⟩
+  unfold mainExit dshReturn aggregate
+  cases hk : fl.k with
+  | true => simp [hkf]
+  | false =>
+    have hS : fl.S = true := by rcases hfl with h | h; exact h; simp [hk] at h
+    simp only [Bool.false_and, Bool.false_eq_true, if_false, hS, if_true, exitStatus]
+    constructor
+    · omega
+    · intro _ _; omega
+
+/-- a run aborted by ^C (batch mode, or a second ^C within a second) exits 1, whatever the flags -/
+theorem abort_exit1 (fx : Fixes) (fl : Flags) : mainExit fx fl .aborted = 1 := rfl
+
+/-- SIGINT ABORT, composed with the signals model of C20 (Dsh/Signals.lean, all interleavings of dispatcher,
+    workers, signals thread and deliveries): in every reachable state in which exit() has been called, its status
+    is the one this model gives for an aborted run — 1, never 0 -/
+theorem sigint_abort_nonzero {v : Fan.Variant} {g sw : Bool} {f n t0 : Nat} {b : Bool} {s : Sig.St} {c : Nat}
+    (h : Sig.Reach v g sw f n b t0 s) (hx : s.exited = some c) (fx : Fixes) (fl : Flags) :
+    c = mainExit fx fl .aborted ∧ c ≠ 0 := by
+  have := (Sig.ainv_reach h).ex (by rw [hx]; rfl)
+  rw [hx] at this
+  have hc : c = 1 := by simpa using this.2
+  exact ⟨by rw [hc]; rfl, by omega⟩
 
 /-! ## end to end through the relay model: any chunking of every host's stdout -/
 
